@@ -234,11 +234,12 @@ def closed_system_limit(cx, nbath, depth, N):
 
 @harness("C16", "propagate_valid",
          quick=[dict(nbath=1, depth=1, N=2, L=2)],
-         thorough=[dict(nbath=1, depth=1, N=2, L=2), dict(nbath=1, depth=1, N=2, L=4),
-                   dict(nbath=2, depth=1, N=2, L=2), dict(nbath=1, depth=2, N=2, L=2)],
+         thorough=[dict(nbath=1, depth=1, N=2, L=2), dict(nbath=2, depth=1, N=2, L=2),
+                   dict(nbath=1, depth=2, N=2, L=2)],
          functions=[F + ":KTHierarchyPropagator.propagate", F + ":KTHierarchy.reset_ados"],
          bound="whole propagate() run without abstraction: 1 bath, depth 1, N=2, 2 stored times, order 2 (thorough "
-               "order 4, 2 baths, depth 2); initial state Hermitian with unit trace",
+               "2 baths, depth 2; order 4 as a whole run is beyond the solver - every order is covered by the inductive "
+               "step above); initial state Hermitian with unit trace",
          out="")
 def propagate_valid(cx, nbath, depth, N, L):
     import quantarhei as qr
